@@ -312,7 +312,8 @@ func (e *envelopeEncryption) loadLatestOrCreateIntermediateKey(ctx context.Conte
 		return nil, err
 	}
 
-	if ikEkr == nil || e.isEnvelopeInvalid(ikEkr) {
+	if ikEkr == nil || ikEkr.ParentKeyMeta == nil || e.isEnvelopeInvalid(ikEkr) {
+		// no usable IK (missing, malformed, expired or revoked): create a new one
 		return e.createIntermediateKey(ctx)
 	}
 
@@ -476,6 +477,10 @@ func (e *envelopeEncryption) loadIntermediateKey(ctx context.Context, meta KeyMe
 
 	if ekr == nil {
 		return nil, errors.New("error loading intermediate key from metastore")
+	}
+
+	if ekr.ParentKeyMeta == nil {
+		return nil, errors.New("intermediate key record is missing its parent key meta")
 	}
 
 	sk, err := e.getOrLoadSystemKey(ctx, *ekr.ParentKeyMeta)
